@@ -466,6 +466,17 @@ auto fn1(char const *name, int idx, Table<R> const &t)
     return t.at({x.v});
   };
 }
+// unary continuation taking Arg && and CONSUMING it (moves the argument into a local)
+template <typename R, typename Arg = Val>
+auto fn1c(char const *name, int idx, Table<R> const &t)
+{
+  return [name, idx, &t](Arg &&x) -> R
+  {
+    Arg const taken(std::move(x));
+    log_call(name, idx, js(taken));
+    return t.at({taken.v});
+  };
+}
 template <typename R>
 auto fn2(char const *name, Table<R> const &t)
 {
@@ -590,6 +601,51 @@ void drive_optional(Sizes const &sz)
           });
       });
     });
+  // the same with a predicate taking its parameter BY VALUE ([](T x)): for an rvalue source the held
+  // value must still be intact in the result (a moved-from Val holds 7)
+  if (wanted("opt_filter"))
+    for_tables<bool>(1, 100, rng_for("opt_filter"), [&](Table<bool> const &t)
+    {
+      for_values<OD>([&](OD const &o)
+      {
+        for (char const *c = cats3; *c; ++c)
+          record("opt_filter", std::string(1, *c), js(o), ",\"pm\":\"value\"" + ex_tf(t), [&]
+          {
+            return with_cat(*c, o, [&](auto &&a)
+            {
+              return fcppt::optional::filter(FWD(a), [&t](Val x) -> bool
+              {
+                log_call("p", 0, js(x));
+                return t.at({x.v});
+              });
+            });
+          });
+      });
+    });
+  // continuations taking T && and consuming it, rvalue sources only (they do not bind to what the
+  // library hands over for lvalue sources)
+  for_tables<Val>(1, 100, rng_for("rref"), [&](Table<Val> const &t)
+  {
+    for_values<OD>([&](OD const &o)
+    {
+      if (wanted("opt_map"))
+        record("opt_map", "r", js(o), ",\"pm\":\"rref\"" + ex_tf(t), [&] { OD a(o); return fcppt::optional::map(std::move(a), fn1c<Val>("f", 0, t)); });
+      if (wanted("opt_apply"))
+        record("opt_apply", "r", js(o), ",\"pm\":\"rref\"" + ex_tf(t), [&] { OD a(o); return fcppt::optional::apply(fn1c<Val>("f", 0, t), std::move(a)); });
+      if (wanted("opt_maybe"))
+        for (int d = 0; d < N; ++d)
+          record("opt_maybe", "r", js(o), ",\"pm\":\"rref\"" + ex_d<Val>(d) + ex_tf(t), [&]
+          { OD a(o); return fcppt::optional::maybe(std::move(a), fn0<Val>("d", 0, d), fn1c<Val>("f", 0, t)); });
+    });
+  });
+  for_tables<OD>(1, 100, rng_for("rref2"), [&](Table<OD> const &t)
+  {
+    for_values<OD>([&](OD const &o)
+    {
+      if (wanted("opt_bind"))
+        record("opt_bind", "r", js(o), ",\"pm\":\"rref\"" + ex_tf(t), [&] { OD a(o); return fcppt::optional::bind(std::move(a), fn1c<OD>("f", 0, t)); });
+    });
+  });
   if (wanted("opt_alternative"))
     for_values<OD>([&](OD const &o)
     {
@@ -779,6 +835,29 @@ void drive_either(Sizes const &sz)
         }
       });
     });
+  for_tables<Val>(1, 100, rng_for("eit_rref"), [&](Table<Val> const &t)
+  {
+    Table<Fv> const tfail{t.arity, t.codes};
+    for_values<ED>([&](ED const &e)
+    {
+      if (wanted("eit_map"))
+        record("eit_map", "r", js(e), ",\"pm\":\"rref\"" + ex_tf(t), [&] { ED a(e); return fcppt::either::map(std::move(a), fn1c<Val>("f", 0, t)); });
+      if (wanted("eit_map_failure"))
+        record("eit_map_failure", "r", js(e), ",\"pm\":\"rref\"" + ex_tf(tfail), [&]
+        { ED a(e); return fcppt::either::map_failure(std::move(a), fn1c<Fv, Fv>("f", 0, tfail)); });
+      if (wanted("eit_match"))
+        record("eit_match", "r", js(e), ",\"pm\":\"rref\"" + ex_tf(t) + ",\"tg\":" + t.json(), [&]
+        { ED a(e); return fcppt::either::match(std::move(a), fn1c<Val, Fv>("ff", 0, t), fn1c<Val, Val>("sf", 0, t)); });
+    });
+  });
+  for_tables<ED>(1, 1000, rng_for("eit_rref2"), [&](Table<ED> const &t)
+  {
+    for_values<ED>([&](ED const &e)
+    {
+      if (wanted("eit_bind"))
+        record("eit_bind", "r", js(e), ",\"pm\":\"rref\"" + ex_tf(t), [&] { ED a(e); return fcppt::either::bind(std::move(a), fn1c<ED>("f", 0, t)); });
+    });
+  });
   if (wanted("eit_join"))
     for_values<EED>([&](EED const &e)
     {
@@ -1019,6 +1098,23 @@ void drive_variant(Sizes const &sz)
             return with_cat(*c, v, [&](auto &&a)
             { return fcppt::variant::match(FWD(a), fn1<Val, A1>("f", 1, t1), fn1<Val, A2>("f", 2, t2), fn1<Val, A3>("f", 3, t3)); });
           });
+      });
+    }
+  }
+  if (wanted("var_match"))
+  {
+    vj::Rng rng{rng_for("var_match_rref")};
+    for (int k = 0; k < 20; ++k)
+    {
+      Table<Val> const t1{table_random<Val>(1, rng)}, t2{table_random<Val>(1, rng)}, t3{table_random<Val>(1, rng)};
+      std::string const tabs = ",\"pm\":\"rref\",\"tf\":[" + t1.json() + "," + t2.json() + "," + t3.json() + "]";
+      for_values<VD>([&](VD const &v)
+      {
+        record("var_match", "r", js(v), tabs, [&]
+        {
+          VD a(v);
+          return fcppt::variant::match(std::move(a), fn1c<Val, A1>("f", 1, t1), fn1c<Val, A2>("f", 2, t2), fn1c<Val, A3>("f", 3, t3));
+        });
       });
     }
   }
